@@ -77,6 +77,10 @@ init_mb_mgr_avx2(IMB_MGR *state)
 {
         init_mb_mgr_avx2_internal(state, 1);
 
+        /* initialization failed (NULL manager or missing CPU flags): nothing to self-test */
+        if (state == NULL || imb_get_errno(state) != 0)
+                return;
+
         if (!self_test(state))
                 imb_set_errno(state, IMB_ERR_SELFTEST);
 }
